@@ -19,6 +19,7 @@ import (
 	"fmt"
 	"math/big"
 	"os"
+	"runtime/debug"
 	"sort"
 	"strconv"
 	"strings"
@@ -1272,6 +1273,7 @@ func runGroup[G algebra.PrimeGroupElement[G, S], S algebra.PrimeFieldElement[S]]
 
 func main() {
 	defer startProf()()
+	debug.SetGCPercent(200) // the protocol code allocates heavily; the harness is short-lived
 	a := vh.ParseArgs()
 	res := vh.NewResult(prop, a.Seed, a.Tier)
 	res.Rule = "histories: random policy of a random family (threshold, unanimity, CNF, hierarchical, gate tree with repeated leaves) on 2..maxholders ids (ordinal or sparse/large), dealt by the trusted dealer; then 1..maxlen steps drawn from {refresh 30%, recover a lost share 25%, redistribute to a new family/holder set with leavers and newcomers 45%}, driving quorum = all holders / a minimal / any qualified set, trusted anchor 50%; non-trivial = at least one step performed. hjky: every family, honest and with one dealer dealing a non-zero value. deviation: one previous holder re-deals a wrong value consistently and/or broadcasts a wrong previous vector. refused: unqualified driving set."
@@ -1297,7 +1299,7 @@ func main() {
 			return
 		}
 	}
-	nHist, maxLen, maxHolders, nZero, nDev, nRef := 12, 5, 5, 6, 8, 3
+	nHist, maxLen, maxHolders, nZero, nDev, nRef := 10, 5, 5, 5, 6, 3
 	if a.Tier == "thorough" {
 		nHist, maxLen, maxHolders, nZero, nDev, nRef = 120, 20, 6, 40, 60, 10
 	}
